@@ -52,7 +52,8 @@ impl Default for SessGen {
             max_pushes: 0,
             max_batch: 0,
             p_bad_push: 0,
-            avoid_k2: true,
+            // K2 (carried channel requests bypassing flow control) was repaired in /repo
+            avoid_k2: false,
             avoid_ack_mismatch: true,
             tail_never: true,
             p_receive_max: 20,
